@@ -21,7 +21,7 @@ def load_known():
             continue
         if not line.startswith("finding:"):
             continue
-        body, _, what = line[len("finding:"):].partition("::")
+        body, _, what = line[len("finding:"):].partition(" :: ")
         kv = {}
         toks = body.split()
         for t in toks:
@@ -54,6 +54,7 @@ class Report:
 
     # -- recording ---------------------------------------------------------------
     def ob(self, rule, key, ok, where="", detail=""):
+        key = "_".join(str(key).split())
         self.obligations.append({"rule": rule, "key": key, "ok": bool(ok), "where": where, "detail": detail})
         self.instances[rule] = self.instances.get(rule, 0) + 1
         return ok
